@@ -79,7 +79,7 @@ impl ShardResult {
             if v.weight < old.weight {
                 *old = v;
             }
-        } else if self.violations.len() < 50 {
+        } else if self.violations.len() < 3000 {
             self.violations.push(v);
         }
     }
@@ -259,10 +259,22 @@ pub fn run_check(engine: &dyn Engine, tier: Tier) -> i32 {
     let replays = verif_root().join("replays");
     std::fs::create_dir_all(&replays).unwrap();
     let findings = load_findings();
-    let mut confirmed: Vec<(Violation, PathBuf)> = vec![];
     let mut viols = merged.violations.clone();
     viols.sort_by(|a, b| a.weight.cmp(&b.weight).then(a.sig.cmp(&b.sig)));
-    for v in viols.iter().take(12) {
+    let mut exit = 0;
+    let mut known_printed = BTreeSet::new();
+    let mut new_violations = 0;
+    let mut unconfirmed = 0;
+    let is_known = |sig: &str| findings.iter().find(|f| f.kind == "known" && f.property == prop && f.sig == sig);
+    // known findings are reported without replay; every other signature must reproduce twice
+    for v in &viols {
+        if let Some(f) = is_known(&v.sig) {
+            if known_printed.insert(v.sig.clone()) {
+                println!("KNOWN-FINDING: property={} {}", prop, f.text);
+            }
+        }
+    }
+    for v in viols.iter().filter(|v| is_known(&v.sig).is_none()).take(10) {
         let path = replays.join(sig_file_name(prop, &v.sig));
         let body = json!({"property": prop, "sig": v.sig, "what": v.what, "case": v.case});
         std::fs::write(&path, serde_json::to_vec_pretty(&body).unwrap()).unwrap();
@@ -279,8 +291,19 @@ pub fn run_check(engine: &dyn Engine, tier: Tier) -> i32 {
             }
         }
         if sigs.iter().all(|s| s.as_deref() == Some(v.sig.as_str())) {
-            confirmed.push((v.clone(), path));
+            new_violations += 1;
+            println!("VIOLATION property={} replay={}", prop, path.display());
+            println!("  sig={}", v.sig);
+            println!("  {}", v.what.chars().take(700).collect::<String>());
+            exit = 1;
+        } else if sigs.iter().all(|s| s.is_some()) && sigs[0] == sigs[1] && is_known(sigs[0].as_deref().unwrap()).is_some() {
+            // replays as a known finding (the first run observed it through a different symptom)
+            let f = is_known(sigs[0].as_deref().unwrap()).unwrap();
+            if known_printed.insert(f.sig.clone()) {
+                println!("KNOWN-FINDING: property={} {}", prop, f.text);
+            }
         } else {
+            unconfirmed += 1;
             machinery_errors.push(format!(
                 "violation sig={} did not reproduce identically on replay (got {:?}); case kept at {}",
                 v.sig,
@@ -289,22 +312,10 @@ pub fn run_check(engine: &dyn Engine, tier: Tier) -> i32 {
             ));
         }
     }
-
-    let mut exit = 0;
-    let mut known_printed = BTreeSet::new();
-    let mut new_violations = 0;
-    for (v, path) in &confirmed {
-        if let Some(f) = findings.iter().find(|f| f.kind == "known" && f.property == prop && f.sig == v.sig) {
-            if known_printed.insert(v.sig.clone()) {
-                println!("KNOWN-FINDING: property={} {}", prop, f.text);
-            }
-        } else {
-            new_violations += 1;
-            println!("VIOLATION property={} replay={}", prop, path.display());
-            println!("  sig={}", v.sig);
-            println!("  {}", v.what);
-            exit = 1;
-        }
+    let _ = unconfirmed;
+    let other_unknown = viols.iter().filter(|v| is_known(&v.sig).is_none()).count().saturating_sub(10);
+    if other_unknown > 0 {
+        println!("({} further unlisted violation signatures not replayed)", other_unknown);
     }
     if !machinery_errors.is_empty() {
         for e in &machinery_errors {
